@@ -182,7 +182,7 @@ func runAll(rep *vx.Report, cases []aCase, batch int, crashClause string) {
 func checkC17(tier string) int {
 	rep := vx.NewReport("C17", tier, "exploration")
 	rep.Assumptions = []string{"the identity is whatever the configured ACL header carries (nsqadmin trusts its reverse proxy)", "real loopback stub upstreams, no controlled scheduler: the decision is made before any upstream call, so nothing is scheduling-dependent"}
-	rep.Rule = "E5: every route of nsqadmin's HTTP server (state-changing and read-only) x body {valid action for that route, invalid} x identity {absent, empty, non-admin, admin, case variant, trailing space, list, prefixed} x admin list {[], [admin], [admin, root]} x ACL header {default, custom, identity sent under the other header name}; /config GET/PUT x remote address x allowed CIDR. admin actions also with one or both nsqlookupd stubs failing (500, refused). Stub nsqd/nsqlookupd upstreams record every request. distinct = distinct (route class, status, upstream writes) outcomes"
+	rep.Rule = "E5: every route of nsqadmin's HTTP server (state-changing and read-only) x body {valid action for that route, invalid} x identity {absent, empty, non-admin, admin, case variant, trailing space, list, prefixed} x admin list {[], [admin], [admin, root]} x ACL header {default, custom, identity sent under the other header name, or claimed as the HTTP basic-auth user / in a cookie / in the query string instead}; /config GET/PUT x remote address x allowed CIDR. admin actions also with one or both nsqlookupd stubs failing (500, refused). Stub nsqd/nsqlookupd upstreams record every request. distinct = distinct (route class, status, upstream writes) outcomes"
 	var cases []aCase
 	type rt struct{ route, good, bad string }
 	routes := []rt{
@@ -213,6 +213,12 @@ func checkC17(tier string) int {
 					cases = append(cases, aCase{"acl", mustJSON(nsqadmin.ACLSpec{Route: r.route, Body: b, Identity: id, AdminUsers: al, Header: "X-Auth-User"})})
 					cases = append(cases, aCase{"acl", mustJSON(nsqadmin.ACLSpec{Route: r.route, Body: b, Identity: id, AdminUsers: al, Header: "X-Auth-User", SendAs: "X-Forwarded-User"})})
 					cases = append(cases, aCase{"acl", mustJSON(nsqadmin.ACLSpec{Route: r.route, Body: b, Identity: id, AdminUsers: al, SendAs: "X-Auth-User"})})
+					if id != "" && b == r.good {
+						// the identity claimed anywhere but in the configured header
+						for _, as := range []string{"Authorization-Basic", "Authorization-Basic+empty", "Cookie", "Query"} {
+							cases = append(cases, aCase{"acl", mustJSON(nsqadmin.ACLSpec{Route: r.route, Body: b, Identity: id, AdminUsers: al, SendAs: as})})
+						}
+					}
 				}
 			}
 		}
